@@ -646,7 +646,18 @@ class SysEngine(MempoolEngine):
                         job.park_secs = rng.choice((4, 8, 12, 16, 22))
                         self.bump('jobs_held_at_start')
                     return
-                if job.name.split('.')[-1] in ('read_history', 'read_utxos', 'fs_tx_hashes_at_blockheight', 'read_headers') and rng.random() < lp:
+                std = job.name.split('.')[-1] in ('read_history', 'read_utxos', 'fs_tx_hashes_at_blockheight', 'read_headers')
+                if c.get('hold_any_request_job') and '_throttled_request' not in owner:
+                    go = False       # positively a client request's task (not the block processor's locked jobs, prefetches ...)
+                elif c.get('hold_any_request_job'):
+                    # whatever else a request hands to a worker thread (level computations ...) is held, its reads mostly not, so that
+                    # the request gets past its reads before the chain changes
+                    go = rng.random() < (0.2 if std else lp)
+                    if go and not std:
+                        self.bump('other_request_jobs_held')
+                else:
+                    go = std and rng.random() < lp
+                if go:
                     job.longpark = 'job-end'
                     job.park_secs = rng.choice((6, 11, 17, 26))      # below the 30 s request / notification timeouts
                     self.bump('jobs_long_parked')
